@@ -23,8 +23,8 @@ def C(v):
 
 
 @st.composite
-def templates(draw, names):
-    """(template name, model)"""
+def templates(draw, names, pool=None):
+    """(template name, model); pool restricts the template names drawn from"""
     def hole(d=None):
         k = draw(st.integers(0, 5))
         if k == 0 and names:
@@ -61,7 +61,7 @@ def templates(draw, names):
         return draw(st.sampled_from([("Add", (("NthPower", x, 2), ("Constant", 1))), ("Exponential", x, 2), x, x, ("Constant", 3),
                                      ("Constant", 0.5), ("Multiply", (x, x)), ("NthPower", x, 4), ("Add", (x, ("Constant", 5)))]))
 
-    name = draw(st.sampled_from(TEMPLATE_NAMES))
+    name = draw(st.sampled_from(pool or TEMPLATE_NAMES))
     if name in POSITIVE_TEMPLATES:
         u, v, w = ph(), ph(), ph()
     else:
@@ -206,11 +206,21 @@ TEMPLATE_NAMES = [
 ]
 
 
+def shard_templates():
+    """Stratification: each shard draws its primary template from its own slice of the template list (every template
+    belongs to exactly one shard), so that no template can be starved by the distribution of one random choice; the
+    secondary (interacting) template still comes from the whole list."""
+    import os
+    shard, n = int(os.environ.get("VERIF_SHARD", "0")), int(os.environ.get("VERIF_NSHARDS", "1"))
+    mine = [t for i, t in enumerate(TEMPLATE_NAMES) if i % max(n, 1) == shard % max(n, 1)]
+    return mine or TEMPLATE_NAMES
+
+
 @st.composite
 def placed(draw, names, depth=2):
     """(template name, model): the redex at a generated position of a generated context; sometimes
     two redexes that can interact (one inside the other's hole)."""
-    name, red = draw(templates(names))
+    name, red = draw(templates(names, shard_templates()))
     if draw(st.integers(0, 3)) == 0:
         name2, red2 = draw(templates(names))
         ps = M.paths(red2, limit=60)
